@@ -205,6 +205,13 @@ def part_client(ctx, n):
                         inp={'part': 'client', 'base_text': base_text, 'params': params}, expected=dict(params),
                         observed={k: got.get(k) for k, _ in params})
     failing = fw.kernel_bools(ctx, 'client', ['Model.Tokenizer'], terms, open_scope='string_scope')
+    if failing:   # the proposed repair (terminate the base text first, cf. fix db0b708 of the Monte-Carlo driver) is a modelled behaviour too
+        again = fw.kernel_bools(ctx, 'client_repaired', ['Model.Tokenizer'],
+                                [terms[i].replace('(client_text ', '(client_text_repaired ', 1) for i in failing], open_scope='string_scope')
+        if len(again) < len(failing):
+            ctx.note(f'{len(failing) - len(again)} client files follow client_text_repaired (base text terminated before the overrides): '
+                     'the repository has adopted the repair; switch the model to it (TokenizerProofs.client_override_repaired)')
+        failing = [failing[i] for i in again]
     for i in failing[:3]:
         ctx.violate('corr', 'client-append:model-disagrees', 'Coq model client_text and GeophiresInputParameters write different files',
                     inp={'part': 'client', 'base_text': cases[i][0], 'params': cases[i][1]}, observed=cases[i][2])
